@@ -73,28 +73,44 @@ for i in range(S.budget):
         S.sample({'ops': ops, 'interleaved_reads': {str(k): v for k, v in inter.items()}})
 # copies made by Pipeline.update_slurries
 for i in range(max(5, S.budget // 20)):
-    s = SlurryObj.Slurry(**INIT)
+    # fine sands too: only when the pseudo-liquid limit cuts into the grading does it differ between diameters
+    init = dict(INIT, D50=rng.choice([1.0e-3, 3.0e-4, 2.2e-4, 1.5e-4]))
+    s = SlurryObj.Slurry(**init)
     d1, d2 = rng.choice([(0.5, 0.6), (0.762, 0.8636), (0.4, 0.9)])
     pl = PipeObj.Pipeline(pipe_list=[PipeObj.Pipe('a', d1, 0, 0.5, -5.0), PipeObj.Pipe('b', d2, 500, 1.0, 1.0),
                                      PipeObj.Pipe('c', d1, 300, 0.5, 1.0)], slurry=s)
-    g = so.Ghost(dict(INIT, Dp=s.Dp))
-    ops = so.random_ops(rng, rng.randint(1, 4), p_read=0.0)
+    g = so.Ghost(dict(init, Dp=s.Dp))
+    ops = so.random_ops(rng, rng.randint(0, 4), p_read=0.0)
     ops = [o for o in ops if o[0] not in ('Dp',)]
     try:
         for o in ops:
             so.apply_op(pl.slurry, o)
             g.apply(o, rhol_of)
         _ = pl.slurry.GSD
+        # envelope: the grain size stays above the pseudo-liquid limit of every diameter involved (below it the
+        # grading ratios cannot be read back from a stored grading: outside the property's quantifier)
+        from DHLLDV import DHLLDV_framework as _fw
+        ps = pl.slurry
+        if any(ps.D50 <= 1.02 * _fw.pseudo_dlim(dd, ps.nu, ps.rhol, ps.rhos) for dd in (d1, d2, ps.Dp)):
+            S.count(None, 'pipeline_copies:below-limit-skipped')
+            continue
         if rng.random() < 0.5:
             pl.Cv = 0.22
             g.Cv = 0.22
         else:
             pl.slurry = pl.slurry
-        for dia, sc in pl.slurries.items():
-            gd = so.Ghost(INIT)
-            gd.__dict__.update(g.__dict__)
-            gd.Dp = dia
-            check_against_fresh(sc, gd, ops + [('update_slurries', dia)], LIGHT)
+        # two passes over the copies, then the shared slurry itself: a read of one copy must not disturb another
+        # (the copies are shallow: any container they share must never be mutated in place)
+        for rnd in (1, 2):
+            for dia, sc in pl.slurries.items():
+                gd = so.Ghost(init)
+                gd.__dict__.update(g.__dict__)
+                gd.Dp = dia
+                check_against_fresh(sc, gd, ops + [('update_slurries', dia, 'pass', rnd)], LIGHT)
+        gm = so.Ghost(init)
+        gm.__dict__.update(g.__dict__)
+        gm.Dp = pl.slurry.Dp
+        check_against_fresh(pl.slurry, gm, ops + [('update_slurries', 'shared slurry')], LIGHT)
     except Exception as e:
         S.count(None, 'exception:' + type(e).__name__)
         continue
